@@ -3,5 +3,5 @@
 # property it breaks; prints DETECTED / MISSED per seed. /repo itself is not touched.
 HERE=$(cd "$(dirname "$0")/.." && pwd)
 OUT=${1:-/tmp/seedbatch}; mkdir -p "$OUT"
-ls -d "$HERE"/seeded/*/ | xargs -P 6 -I{} sh -c 'd={}; n=$(basename $d); p=$(python3 -c "import json,sys;print(\",\".join(json.load(open(sys.argv[1]))[\"checks_reporting_now\"]))" $d/meta.json); '"$HERE"'/tools/ref_eval.sh $d/patch.diff HEAD $p > '"$OUT"'/$n.txt 2>&1'
-for d in "$HERE"/seeded/*/; do n=$(basename $d); if grep -q "^VIOLATION" "$OUT/$n.txt"; then echo "$n DETECTED $(grep -c '^FINDING' $OUT/$n.txt) finding(s): $(grep -m1 '^FINDING' $OUT/$n.txt | cut -c9-110)"; elif grep -q "^UNDECIDED" "$OUT/$n.txt"; then echo "$n UNDECIDED-ONLY $(grep -m1 '^UNDECIDED' $OUT/$n.txt | cut -c1-150)"; else echo "$n MISSED $(head -2 $OUT/$n.txt | cut -c1-200)"; fi; done
+ls -d "$HERE"/seeded/*/ | xargs -P 6 -I{} sh -c 'd={}; n=$(basename $d); p=$(python3 -c "import json,sys;m=json.load(open(sys.argv[1]));print(\",\".join(m[\"checks_reporting_now\"]) or m.get(\"evaluate_property\",\"all\"))" $d/meta.json); '"$HERE"'/tools/ref_eval.sh $d/patch.diff HEAD $p > '"$OUT"'/$n.txt 2>&1'
+for d in "$HERE"/seeded/*/; do n=$(basename $d); if grep -q "^VIOLATION" "$OUT/$n.txt"; then echo "$n DETECTED $(grep -c '^FINDING' $OUT/$n.txt) finding(s): $(grep -m1 '^FINDING' $OUT/$n.txt | cut -c9-110)"; elif grep -q "^UNDECIDED" "$OUT/$n.txt"; then echo "$n UNDECIDED-ONLY $(grep -m1 '^UNDECIDED' $OUT/$n.txt | cut -c1-150)"; elif python3 -c "import json,sys;sys.exit(0 if json.load(open(sys.argv[1])).get(\"missed\") else 1)" $d/meta.json; then echo "$n KNOWN-MISS (recorded in meta.json and DESIGN 8.6h: no rule reports this change)"; else echo "$n MISSED $(head -2 $OUT/$n.txt | cut -c1-200)"; fi; done
